@@ -67,6 +67,8 @@ pub mod tag {
 pub struct TraceCfg {
     /// record one `Step` per emitted body/tail/stop opcode.
     pub record_steps: bool,
+    /// fill `Step::stack`, `Step::memo` and `Step::memo_kinds` (costs O(depth) per step).
+    pub record_state: bool,
     /// also record the candidate opcode list of every body step.
     pub record_valid: bool,
     /// opcode bytes the generation loop must choose, in order; when the
@@ -89,6 +91,8 @@ pub struct Step {
     pub stack: Vec<u8>,
     /// defined memo indices, ascending.
     pub memo: Vec<usize>,
+    /// kind tag of the object memoised under each index of `memo`.
+    pub memo_kinds: Vec<u8>,
     /// candidate opcodes the choice was made from (body steps, if requested).
     pub valid: Vec<u8>,
 }
@@ -169,8 +173,9 @@ fn kind_tag(o: &StackObject) -> u8 {
     }
 }
 
-/// kind tags of a generator's simulated stack (bottom first) and its memo keys.
-pub fn snapshot(g: &Generator) -> (Vec<u8>, Vec<usize>) {
+/// kind tags of a generator's simulated stack (bottom first), its memo keys
+/// (ascending) and the kind tag memoised under each key.
+pub fn snapshot(g: &Generator) -> (Vec<u8>, Vec<usize>, Vec<u8>) {
     let stack = g
         .state
         .stack
@@ -180,7 +185,11 @@ pub fn snapshot(g: &Generator) -> (Vec<u8>, Vec<usize>) {
         .collect();
     let mut memo: Vec<usize> = g.state.memo.keys().copied().collect();
     memo.sort_unstable();
-    (stack, memo)
+    let memo_kinds = memo
+        .iter()
+        .map(|k| kind_tag(&g.state.memo[k].borrow()))
+        .collect();
+    (stack, memo, memo_kinds)
 }
 
 fn burn(s: &mut Sink) {
@@ -193,14 +202,19 @@ fn burn(s: &mut Sink) {
     }
 }
 
-fn step(g: &Generator, phase: u8, opcode: u8, valid: Vec<u8>) -> Step {
-    let (stack, memo) = snapshot(g);
+fn step(g: &Generator, with_state: bool, phase: u8, opcode: u8, valid: Vec<u8>) -> Step {
+    let (stack, memo, memo_kinds) = if with_state {
+        snapshot(g)
+    } else {
+        Default::default()
+    };
     Step {
         phase,
         opcode,
         out_len: g.output.len(),
         stack,
         memo,
+        memo_kinds,
         valid,
     }
 }
@@ -237,7 +251,7 @@ pub(crate) fn on_body_step(g: &Generator, chosen: OpcodeKind) {
             s.trace.body_steps += 1;
             let valid = std::mem::take(&mut s.pending_valid);
             if s.cfg.record_steps {
-                let st = step(g, PHASE_BODY, chosen.as_u8(), valid);
+                let st = step(g, s.cfg.record_state, PHASE_BODY, chosen.as_u8(), valid);
                 s.trace.steps.push(st);
             }
         }
@@ -257,7 +271,7 @@ pub(crate) fn on_emit_opcode(g: &Generator, opcode: OpcodeKind) {
                     s.trace.stop_steps += 1;
                 }
                 if s.cfg.record_steps {
-                    let st = step(g, s.phase, opcode.as_u8(), Vec::new());
+                    let st = step(g, s.cfg.record_state, s.phase, opcode.as_u8(), Vec::new());
                     s.trace.steps.push(st);
                 }
             }
